@@ -122,5 +122,45 @@ where
 //@end
 }
 
+// ---- C11: the two segment-integration iterators.  The closure they return is a state machine over the captured running knot; vgen rule 14
+// extracts its body as a step function.  Step contract: the produced piece is an antiderivative of the input piece through the incoming knot,
+// keeps its breakpoint, and the outgoing knot is (end, F(end)) - so the next piece starts where this one stops (continuity at every interior
+// breakpoint, by induction over the list, any length, any piece type).  Both iterators have the same step contract (identical pieces).
+/// the data precondition of one step: the piece is integrable at the incoming knot and every antiderivative of it is defined at its end
+/// (polynomials: always; log-polynomials: positive breakpoints)
+pub open spec fn step_pre<T: HasIntegral>(seg: Segment<T>, k: Knot) -> bool where T::IntegralOf: Translate {
+    seg.i_wf() && fin(k.x) && fin(k.y) && seg.i_dom(rv(k.x)) && fin(seg.end)
+    && forall|r: Segment<T::IntegralOf>| #[trigger] seg.antideriv_of(r) && r.wf() ==> r.dom(rv(seg.end))
+}
+pub open spec fn step_post<T: HasIntegral>(seg: Segment<T>, k: Knot, f: Segment<T::IntegralOf>, k1: Knot) -> bool where T::IntegralOf: Translate {
+    seg.antideriv_of(f) && f.wf() && f.end == seg.end
+    && f.dom(rv(k.x)) && f.ev_r(rv(k.x)) == rv(k.y)                          // through the incoming knot
+    && k1.x == f.end && fin(k1.y) && f.dom(rv(f.end)) && rv(k1.y) == f.ev_r(rv(f.end))   // outgoing knot = (end, F(end))
+}
+/// continuity at an interior breakpoint: two consecutive steps agree in value at the first piece's end
+pub proof fn lemma_c11_continuous<T: HasIntegral>(s1: Segment<T>, s2: Segment<T>, k0: Knot, f1: Segment<T::IntegralOf>, k1: Knot, f2: Segment<T::IntegralOf>, k2: Knot)
+    where T::IntegralOf: Translate
+    requires step_post(s1, k0, f1, k1), step_post(s2, k1, f2, k2),
+    ensures f2.ev_r(rv(s1.end)) == f1.ev_r(rv(s1.end)), f1.end == s1.end, f2.end == s2.end,
+{}
+
+impl<T> Segment<T>
+where
+    T: HasIntegral,
+    T::IntegralOf: Translate,
+{
+//@extract file=src/piecewise.rs impl="impl<T> Segment<T>" fn=integral_iter_ref props=C11 ret=out rename=int=>int_ closure="segments.into_iter().map(move |seg| {" state=knot wrapsha=da2c3a78e5693704 stepsig="fn integral_iter_ref_step(seg: &Segment<T>, knot0: Knot) -> (out: (Segment<T::IntegralOf>, Knot))"
+//@contract
+        requires step_pre(*seg, knot0),
+        ensures step_post(*seg, knot0, out.0, out.1),
+//@end
+//@extract file=src/piecewise.rs impl="impl<T> Segment<T>" fn=integral_iter props=C11 ret=out rename=int=>int_ closure="segments.into_iter().map(move |seg| {" state=knot wrapsha=da2c3a78e5693704 stepsig="fn integral_iter_step(seg: Segment<T>, knot0: Knot) -> (out: (Segment<T::IntegralOf>, Knot))"
+//@contract
+        requires step_pre(seg, knot0),
+        ensures step_post(seg, knot0, out.0, out.1),
+//@end
+}
+
+
 } // verus!
 fn main() {}
